@@ -1,5 +1,6 @@
 import Glom.Lemmas.C18
 import Glom.Model.C18Env
+import Glom.Model.C01Env
 /-
   C18 — T and Path are faithful values: repr, pickle and slicing round-trip.
 
